@@ -206,6 +206,13 @@ Definition run_vc (cmd : string) (args : list string) : option (list string) :=
            | Ok a, Ok b => [show_bool (h_goodc a && h_goodc b && h_sorted a && h_sorted b && h_mutual a b)]
            | _, _ => ["badoperand"] end
     | _ => None end
+  else if seq cmd "ceq" then      (* a == b as __eq__ computes it, and whether both operands have good members (C18) *)
+    match args with
+    | [sa; sb] =>
+      Some match parse_constraint_text false false sa, parse_constraint_text false false sb with
+           | Ok a, Ok b => [show_bool (vc_eqb a b); show_bool (h_goodc a && h_goodc b)]
+           | _, _ => ["badoperand"] end
+    | _ => None end
   else if seq cmd "cpred" then
     match args with
     | [sa; sb] =>
